@@ -11,7 +11,7 @@ ID = 'C02'
 PROPS_FILE = 'theories/Props/C02.v'
 PROPS_MODULE = 'Props.C02'
 COQ_TARGETS = ['theories/Extract/ExtractSyntax.vo']
-REQUIRED_THEOREMS = ['C02_roundtrip_simple_partial', 'C02_simple_is_wellformed', 'C02_layout_independent_simple_partial', 'C02_roundtrip_statement_refuted_by_D7', 'C02_roundtrip_multiline_partial', 'C02_multiline_is_wellformed', 'C02_layout_independent_multiline_partial', 'C02_simple_in_multiline', 'C02_roundtrip_select_partial', 'C02_select_is_wellformed', 'C02_layout_independent_select_partial', 'C02_select_depth_monotone', 'C02_roundtrip_wellformed_partial', 'C02_layout_independent_wellformed_partial', 'C02_roundtrip_nested_partial', 'C02_nested_is_wellformed', 'C02_wellformed_in_nested', 'C02_D7_parse', 'C02_wellformed_refuted_exactly', 'C02_D7_excluded', 'C02_rendered_source_is_utf8', 'C02_parse_all_layouts_partial', 'C02_rendered_is_layout', 'C02_nested_depth_monotone', 'C02_select_in_nested', 'C02_errorfree_source_tree_wellformed_partial', 'C02_relayout_errorfree_source_partial']
+REQUIRED_THEOREMS = ['C02_roundtrip_simple_partial', 'C02_simple_is_wellformed', 'C02_layout_independent_simple_partial', 'C02_roundtrip_statement_refuted_by_D7', 'C02_roundtrip_multiline_partial', 'C02_multiline_is_wellformed', 'C02_layout_independent_multiline_partial', 'C02_simple_in_multiline', 'C02_roundtrip_select_partial', 'C02_select_is_wellformed', 'C02_layout_independent_select_partial', 'C02_select_depth_monotone', 'C02_roundtrip_wellformed_partial', 'C02_layout_independent_wellformed_partial', 'C02_roundtrip_nested_partial', 'C02_nested_is_wellformed', 'C02_wellformed_in_nested', 'C02_D7_parse', 'C02_wellformed_refuted_exactly', 'C02_D7_excluded', 'C02_rendered_source_is_utf8', 'C02_parse_all_layouts_partial', 'C02_rendered_is_layout', 'C02_nested_depth_monotone', 'C02_select_in_nested', 'C02_errorfree_source_tree_wellformed_partial', 'C02_relayout_errorfree_source_partial', 'C02_errorfree_source_tree_wellformed_crlf_partial', 'C02_relayout_errorfree_source_crlf_partial']
 MODEL = 'syn'
 HARNESS_BINS = ['syn_run']
 ANCHORS = ['fluent-syntax/src/parser/core.rs', 'fluent-syntax/src/parser/pattern.rs', 'fluent-syntax/src/parser/expression.rs',
@@ -506,8 +506,8 @@ PARTIAL = ('the round trip parse (render cs t) = t is PROVED for ALL well-formed
            'comment with one line fewer); comments ending in empty or whitespace-only lines anywhere else are covered. The unrestricted statement '
            'is refuted on the current tree by D7: C02_wellformed_refuted_exactly shows the round trip FAILS for every well-formed tree whose last entry '
            'is a comment of >= 2 lines with an empty last line (C02_D7_parse gives the tree the parser returns instead); the one-line case is '
-           'C02_roundtrip_statement_refuted_by_D7. C02_rendered_source_is_utf8: every rendered source is valid UTF-8, so C01 applies to it. Conversely (C02_errorfree_source_tree_wellformed_partial, '
-           'C02_relayout_errorfree_source_partial): the tree of EVERY error-free CR-free UTF-8 source (no zero-line comment) is a tree of the grammar, and '
+           'C02_roundtrip_statement_refuted_by_D7. C02_rendered_source_is_utf8: every rendered source is valid UTF-8, so C01 applies to it. Conversely (C02_errorfree_source_tree_wellformed_crlf_partial, '
+           'C02_relayout_errorfree_source_crlf_partial): the tree of EVERY error-free UTF-8 source with LF or CR LF line ends (no zero-line comment) is a tree of the grammar, and '
            're-rendering it under any layout parses back to the same tree — layout independence for all such sources, not only rendered ones. Adequacy of Render.v w.r.t. the Fluent EBNF is trusted.')
 
 MANIFEST = {
